@@ -112,7 +112,9 @@ func (e *simDirErr) Error() string { return e.s }
 
 func simTempDir() (string, func()) {
 	base := ""
-	if st, err := os.Stat("/dev/shm"); err == nil && st.IsDir() {
+	if d := os.Getenv("VERIF_SHM"); d != "" {
+		base = d // a directory of this run on the RAM disk, removed by the driver when the run ends (also after killed workers)
+	} else if st, err := os.Stat("/dev/shm"); err == nil && st.IsDir() {
 		base = "/dev/shm" // the cache databases are scratch files; a RAM disk avoids fsync latency
 	}
 	d, err := os.MkdirTemp(base, "vfsim")
